@@ -109,6 +109,12 @@ impl Lifecycle {
         self.id
     }
 
+    /// verification hook (only with `--cfg adlt_verif`): id of the lifecycle this one resumes
+    #[cfg(adlt_verif)]
+    pub fn resume_lc_id(&self) -> Option<LifecycleId> {
+        self.resume_lc.as_ref().map(|r| r.id)
+    }
+
     /// returns the end time of this lifecycle.
     /// The end_time is the start_time plus the maximum timestamp of the messages belonging to this lifecycle.
     /// # Note:
